@@ -750,8 +750,26 @@ def run_cases(run, cases, count=True):
     return dis, mon
 
 
+def trap_cases(rng, k):
+    """k cases whose averaging window is an exact multiple W of the frame interval while the float64 quotient period / interval falls
+    just below W — drawn on purpose: whether the random stream happens to contain one must not decide what the check can see"""
+    out, tries = [], 0
+    while len(out) < k and tries < 400:
+        tries += 1
+        c = gen_case(rng)
+        traps = [x for x in _traps() if x[0] <= c["T"] - 1]
+        if not traps or c["T"] < 2:
+            continue
+        W, d, dt = rng.choice(traps)
+        c["steps"] = [c["steps"][0] + d * i for i in range(c["T"])]
+        c["dt"] = dt
+        c["period"] = fdec(W * d * F(dt))
+        out.append(c)
+    return out
+
+
 def gen_cases(rng, n):
-    cases = []
+    cases = trap_cases(rng, 4)
     while len(cases) < n:
         c = gen_case(rng)
         cases.append(c)
